@@ -11,7 +11,30 @@
 
 use std::borrow::Borrow;
 
+#[cfg(not(verif_cap = "2"))]
 pub const CAP: usize = 3;
+#[cfg(verif_cap = "2")]
+pub const CAP: usize = 2;
+
+
+/// Element access by case split instead of `slots[i]` with a possibly symbolic `i`: CBMC mis-reads
+/// niche-encoded `Option`s through a symbolic array offset (observed: an invalid discriminant in
+/// `Option::is_some` after `entry().get_mut()`), and concrete element pointers are much cheaper.
+pub fn at<T>(slots: &[T; CAP], i: usize) -> &T {
+    match i {
+        0 => &slots[0],
+        1 => &slots[1],
+        _ => &slots[CAP - 1],
+    }
+}
+
+pub fn at_mut<T>(slots: &mut [T; CAP], i: usize) -> &mut T {
+    match i {
+        0 => &mut slots[0],
+        1 => &mut slots[1],
+        _ => &mut slots[CAP - 1],
+    }
+}
 
 pub mod hash_map {
     pub use super::{Entry, HashMap, OccupiedEntry, VacantEntry};
@@ -31,7 +54,7 @@ impl<K, V> Default for HashMap<K, V> {
 impl<K, V> HashMap<K, V> {
     pub fn new() -> Self {
         Self {
-            slots: [None, None, None],
+            slots: [const { None }; CAP],
         }
     }
 
@@ -113,7 +136,7 @@ impl<K: Eq, V> HashMap<K, V> {
         Q: Eq + ?Sized,
     {
         match self.find(k) {
-            Some(i) => self.slots[i].as_ref().map(|(_, v)| v),
+            Some(i) => at(&self.slots, i).as_ref().map(|(_, v)| v),
             None => None,
         }
     }
@@ -124,7 +147,7 @@ impl<K: Eq, V> HashMap<K, V> {
         Q: Eq + ?Sized,
     {
         match self.find(k) {
-            Some(i) => self.slots[i].as_mut().map(|(_, v)| v),
+            Some(i) => at_mut(&mut self.slots, i).as_mut().map(|(_, v)| v),
             None => None,
         }
     }
@@ -140,13 +163,14 @@ impl<K: Eq, V> HashMap<K, V> {
     pub fn insert(&mut self, k: K, v: V) -> Option<V> {
         match self.find(&k) {
             Some(i) => {
-                let old = self.slots[i].take();
-                self.slots[i] = Some((k, v));
+                let slot = at_mut(&mut self.slots, i);
+                let old = slot.take();
+                *slot = Some((k, v));
                 old.map(|(_, v)| v)
             }
             None => {
                 let i = self.free_slot();
-                self.slots[i] = Some((k, v));
+                *at_mut(&mut self.slots, i) = Some((k, v));
                 None
             }
         }
@@ -158,7 +182,7 @@ impl<K: Eq, V> HashMap<K, V> {
         Q: Eq + ?Sized,
     {
         match self.find(k) {
-            Some(i) => self.slots[i].take().map(|(_, v)| v),
+            Some(i) => at_mut(&mut self.slots, i).take().map(|(_, v)| v),
             None => None,
         }
     }
@@ -195,19 +219,19 @@ pub struct OccupiedEntry<'a, K, V> {
 
 impl<'a, K, V> OccupiedEntry<'a, K, V> {
     pub fn key(&self) -> &K {
-        &self.map.slots[self.idx].as_ref().unwrap().0
+        &at(&self.map.slots, self.idx).as_ref().unwrap().0
     }
 
     pub fn get(&self) -> &V {
-        &self.map.slots[self.idx].as_ref().unwrap().1
+        &at(&self.map.slots, self.idx).as_ref().unwrap().1
     }
 
     pub fn get_mut(&mut self) -> &mut V {
-        &mut self.map.slots[self.idx].as_mut().unwrap().1
+        &mut at_mut(&mut self.map.slots, self.idx).as_mut().unwrap().1
     }
 
     pub fn into_mut(self) -> &'a mut V {
-        &mut self.map.slots[self.idx].as_mut().unwrap().1
+        &mut at_mut(&mut self.map.slots, self.idx).as_mut().unwrap().1
     }
 
     pub fn insert(&mut self, v: V) -> V {
@@ -215,7 +239,7 @@ impl<'a, K, V> OccupiedEntry<'a, K, V> {
     }
 
     pub fn remove(self) -> V {
-        self.map.slots[self.idx].take().unwrap().1
+        at_mut(&mut self.map.slots, self.idx).take().unwrap().1
     }
 }
 
@@ -231,8 +255,9 @@ impl<'a, K: Eq, V> VacantEntry<'a, K, V> {
 
     pub fn insert(self, v: V) -> &'a mut V {
         let i = self.map.free_slot();
-        self.map.slots[i] = Some((self.key, v));
-        &mut self.map.slots[i].as_mut().unwrap().1
+        let slot = at_mut(&mut self.map.slots, i);
+        *slot = Some((self.key, v));
+        &mut slot.as_mut().unwrap().1
     }
 }
 
@@ -305,7 +330,7 @@ impl<T> Default for HashSet<T> {
 impl<T> HashSet<T> {
     pub fn new() -> Self {
         Self {
-            slots: [None, None, None],
+            slots: [const { None }; CAP],
         }
     }
 
@@ -391,7 +416,7 @@ impl<T: Eq> HashSet<T> {
     {
         match self.find(k) {
             Some(i) => {
-                self.slots[i] = None;
+                *at_mut(&mut self.slots, i) = None;
                 true
             }
             None => false,
